@@ -23,6 +23,15 @@ type Stmt struct {
 	Arg  string `json:"arg,omitempty"`  // use: callee name; raw: text; set: rhs
 	Op   string `json:"op,omitempty"`   // raw: meaning for the harness's model
 	Arg2 string `json:"arg2,omitempty"` // raw: second operand for the model
+	// if: further `elif` branches between Body and Else
+	Elifs []Branch `json:"elifs,omitempty"`
+}
+
+// Branch is one `elif cond { body }` part of an if statement.
+type Branch struct {
+	Cond string `json:"cond"`
+	N    int64  `json:"n,omitempty"` // model: 1 = condition holds
+	Body []Stmt `json:"body,omitempty"`
 }
 
 // Pos is a 1-based line/column of a rendered statement's first token.
@@ -74,6 +83,10 @@ func Render(stmts []Stmt, visit func(s *Stmt, p Pos)) string {
 			case "if":
 				line(ind, fmt.Sprintf("if %s {", s.Cond))
 				rec(s.Body, ind+1)
+				for bi := range s.Elifs {
+					line(ind, fmt.Sprintf("} elif %s {", s.Elifs[bi].Cond))
+					rec(s.Elifs[bi].Body, ind+1)
+				}
 				if s.Has {
 					line(ind, "} else {")
 					rec(s.Else, ind+1)
@@ -93,6 +106,9 @@ func Count(ss []Stmt) int {
 	n := 0
 	for i := range ss {
 		n += 1 + Count(ss[i].Body) + Count(ss[i].Else)
+		for _, b := range ss[i].Elifs {
+			n += Count(b.Body)
+		}
 	}
 	return n
 }
@@ -133,6 +149,24 @@ func ShrinkStmts(ss []Stmt) [][]Stmt {
 				n.Else = b
 				c[i] = n
 				out = append(out, c)
+			}
+		}
+		if len(s.Elifs) > 0 {
+			// drop one elif branch, or shrink inside one
+			for bi := range s.Elifs {
+				c := cp(ss)
+				n := s
+				n.Elifs = append(append([]Branch(nil), s.Elifs[:bi]...), s.Elifs[bi+1:]...)
+				c[i] = n
+				out = append(out, c)
+				for _, b := range ShrinkStmts(s.Elifs[bi].Body) {
+					c := cp(ss)
+					n := s
+					n.Elifs = append([]Branch(nil), s.Elifs...)
+					n.Elifs[bi].Body = b
+					c[i] = n
+					out = append(out, c)
+				}
 			}
 		}
 	}
